@@ -106,6 +106,65 @@ theorem brent_bracket_nested_partial (tol : Rat) (s s' : Bt) (ev : Ev) (h : bren
 
 end
 
+/-! ## purity: the runs depend on the VALUES of the objective only -/
+
+theorem lookup_mem {cache : List (Rat × Rat)} {x v : Rat} (h : cache.lookup x = some v) : (x, v) ∈ cache := by
+  induction cache with
+  | nil => simp at h
+  | cons p rest ih =>
+    obtain ⟨a, b⟩ := p
+    simp only [List.lookup_cons] at h
+    split at h
+    · rename_i heq
+      simp only [Option.some.injEq] at h
+      have : x = a := by simpa using heq
+      subst this; subst h
+      exact List.mem_cons_self
+    · exact List.mem_cons_of_mem _ (ih h)
+
+/-- a memoised objective whose table holds true values IS the objective -/
+theorem memoised_eq (f : Rat → Rat) (cache : List (Rat × Rat)) (hc : ∀ p ∈ cache, p.2 = f p.1) :
+    memoised f cache = f := by
+  funext x
+  unfold memoised
+  split
+  · rename_i v hv
+    exact hc (x, v) (lookup_mem hv)
+  · rfl
+
+/-- the model's run (result AND trace) is unchanged when the objective is replaced by a memoised
+    version of itself: evaluating an abscissa again, or not, cannot change anything but the count. -/
+theorem findMinimum_memoised (rnd : Rat → Rat) (f : Rat → Rat) (cache : List (Rat × Rat)) (hc : ∀ p ∈ cache, p.2 = f p.1)
+    (xl xr tol : Rat) (fuel : Nat) :
+    findMinimum rnd (memoised f cache) xl xr tol fuel = findMinimum rnd f xl xr tol fuel := by
+  rw [memoised_eq f cache hc]
+
+theorem findMaximum_memoised (rnd : Rat → Rat) (f : Rat → Rat) (cache : List (Rat × Rat)) (hc : ∀ p ∈ cache, p.2 = f p.1)
+    (xl xr tol : Rat) (fuel : Nat) :
+    findMaximum rnd (memoised f cache) xl xr tol fuel = findMaximum rnd f xl xr tol fuel := by
+  rw [memoised_eq f cache hc]
+
+/-- starting Brent from the value `Bracket` already holds at `bx` instead of evaluating there again:
+    same outcome, and the trace is the same but for that one repeated abscissa. -/
+theorem brentNR_eq (rnd : Rat → Rat) (f : Rat → Rat) (tol : Rat) (s : Br) (h : s.fb = f s.bx) :
+    brent rnd f tol s = ((brentNR rnd f tol s).1, (s.bx, rmin s.pm (mc s.ax s.cx)) :: (brentNR rnd f tol s).2) := by
+  have e : (brentInit f s).1 = brentInitNR s := by
+    unfold brentInit brentInitNR
+    simp only [h]
+  unfold brent brentNR
+  dsimp only
+  rw [e]
+  rfl
+
+theorem findMinimumNR_outcome (rnd : Rat → Rat) (f : Rat → Rat) (xl xr tol : Rat) (fuel : Nat) :
+    (findMinimumNR rnd f xl xr tol fuel).1 = (findMinimum rnd f xl xr tol fuel).1 := by
+  unfold findMinimumNR findMinimum
+  split
+  · rfl
+  · rename_i s t hb
+    obtain ⟨_, _, _, hfb, _, _⟩ := bracket_best rnd f xl xr fuel s t hb
+    simp only [brentNR_eq rnd f tol s hfb]
+
 /-! ## Nelder–Mead -/
 section
 variable (rnd : Rat → Rat) (f : Pt → Rat)
